@@ -460,7 +460,7 @@ class Gen:
         r = self.rng
         pool = [b"Host: example.com", b"A:b", b"Key:   spaced value  ", b"Dup: 1", b"Dup: 2", b":novalue-field", b"NoValue:",
                 b"Time: 12:30", b"Tab:\tv\t", b"Connection: close", b"X:\x0b\x0cv\x0b", b"Sp ace : v", b"K: \x00z", b"E:   ",
-                b"Accept: */*", b"Content-Length: 5", b"X-\xff: \xfe"]
+                b"Accept: */*", b"Content-Length: 5", b"X-\xff: \xfe", b"Nb: v\xa0", b"Nel:\x85v\x85", b"Cr: a\rb", b"Lf: a\nb \n"]
         return [r.choice(pool) for _ in range(r.choice([0, 0, 1, 2, 3, 5]))]
 
     def http_cases(self, quick):
@@ -518,7 +518,7 @@ def generate(rng, tier):
     g = Gen(rng)
     quick = tier == "quick"
     tags = [(b"XYZ", "58595a"), (b"RPC0", "52504330"), (b"", "-"), (b"T", "54"), (b"LONGTAG8", "4c4f4e4754414738"), (b"\x00\xff", "00ff")]
-    rounds = 3 if quick else 40
+    rounds = 6 if quick else 40
     for i in range(rounds):
         for kind in ("raw", "pb", "rpc"):
             if kind == "rpc":
@@ -531,9 +531,9 @@ def generate(rng, tier):
     for kind, tag, ts in (("raw", b"XYZ", "58595a"), ("rpc", b"RPC0", "52504330")):
         g.big_frame(kind, tag, ts, 1500)
         g.big_frame(kind, tag, ts, 6000 if quick else 70000)
-    for _ in range(60 if quick else 1500):
+    for _ in range(120 if quick else 1500):
         g.http_cases(quick)
-    for _ in range(60 if quick else 1500):
+    for _ in range(150 if quick else 1500):
         g.http_random()
     g.adler_cases(quick)
     return g
@@ -627,7 +627,9 @@ def run(chk, replay=None):
         chk.cov["evaluations"] += 1
         if c.cid in crashes:
             rc, se, partial = crashes[c.cid]
-            oracle_bad.append((c, len(partial), "implementation crashed (rc=%s) -- sanitizer/assert output: %s" % (rc, se[-1200:])))
+            key = [l.strip() for l in se.splitlines() if re.search(r"ERROR: AddressSanitizer|runtime error:|Assertion|SUMMARY:", l)]
+            oracle_bad.append((c, len(partial), "implementation crashed (rc=%s) after %d output lines: %s"
+                               % (rc, len(partial), " | ".join(key[:3]) or se[-600:])))
             continue
         li = impl_out.get(c.cid)
         lm = model_out.get(c.cid)
